@@ -5,13 +5,13 @@ Import ListNotations.
 From Verif Require Import PsbtModel PsbtLemmas PsbtReach PsbtAtomic PsbtIdem PsbtValid PsbtOrder PsbtUpdate.
 
 Definition blank : pinput :=
-  mkIn None None [] None None None [] None None [] [] [] [] None [] [] [] None None [] [].
+  mkIn None (Some (mkTxOut 1%N 1%N)) [] None None None [] None None [] [] [] [] None [] [] [] None None [] [].
 
 (* an oracle that finalizes exactly the inputs carrying a partial signature *)
 Definition ex_try (st : psbt) (i : nat) (m : bool) : tryres :=
   match nth_error (p_inputs st) i with
-  | Some a => match i_psigs a with [] => TErr 10%N | _ => TOk 5%N 6%N end
-  | None => TErr 11%N
+  | Some a => match i_psigs a with [] => TErr i 10%N | _ => TOk 5%N 6%N end
+  | None => TErr i 11%N
   end.
 
 Definition ex_interp (st : psbt) : option (nat * N) := None.
@@ -26,7 +26,7 @@ Proof.
 Qed.
 
 Lemma ex_try_stable : try_stable ex_try.
-Proof. intros st st' i m e _ E H. unfold ex_try in *. now rewrite E. Qed.
+Proof. intros st st' i m k e _ E H. unfold ex_try in *. now rewrite E. Qed.
 
 Lemma ex_try_sound : try_sound ex_try (fun _ _ _ s w => s = Some 5%N /\ w = Some 6%N).
 Proof.
@@ -37,12 +37,12 @@ Qed.
 Lemma hyps_satisfiable :
   exists try_input spends,
     try_nonempty try_input /\ try_stable try_input /\ try_sound try_input spends /\
-    (exists st i m s w, try_input st i m = TOk s w) /\ (exists st i m e, try_input st i m = TErr e).
+    (exists st i m s w, try_input st i m = TOk s w) /\ (exists st i m k e, try_input st i m = TErr k e).
 Proof.
   exists ex_try, (fun _ _ _ s w => s = Some 5%N /\ w = Some 6%N).
   split; [exact ex_try_nonempty|]. split; [exact ex_try_stable|]. split; [exact ex_try_sound|]. split.
   - exists (mkPsbt 1%N 1 [set_psigs blank [(1%N, 1%N)]]), 0, false, 5%N, 6%N. reflexivity.
-  - exists (mkPsbt 1%N 1 [blank]), 0, false, 10%N. reflexivity.
+  - exists (mkPsbt 1%N 1 [blank]), 0, false, 0, 10%N. reflexivity.
 Qed.
 
 Definition ex_step := step ex_try ex_interp ex_desc ex_flag ex_flag ex_mall.
@@ -104,5 +104,31 @@ Lemma update_example :
   let st := mkPsbt 1%N 1 [a] in
   update_input ex_desc st 0 0%N = (with_inputs st [apply_update a (ex_desc 0%N)], ROk) /\
   i_witscript (apply_update a (ex_desc 0%N)) = Some 8%N /\
-  update_input ex_desc (mkPsbt 1%N 1 [blank]) 0 0%N = (mkPsbt 1%N 1 [blank], RUpd u_utxocheck).
+  (* a witness_utxo next to the genuine previous transaction, right script, WRONG amount *)
+  update_input ex_desc (mkPsbt 1%N 1 [mkIn (Some (mkNw 9%N true (Some (mkTxOut 2%N 7%N)))) (Some (mkTxOut 1%N 7%N))
+                                        [] None None None [] None None [] [] [] [] None [] [] [] None None [] []]) 0 0%N
+    = (mkPsbt 1%N 1 [mkIn (Some (mkNw 9%N true (Some (mkTxOut 2%N 7%N)))) (Some (mkTxOut 1%N 7%N))
+                       [] None None None [] None None [] [] [] [] None [] [] [] None None [] []], RUpd u_utxocheck).
+Proof. vm_compute. repeat split. Qed.
+
+(* get_utxo: the previous transaction, when present, decides; a witness_utxo next to a
+   non_witness_utxo of ANOTHER transaction (or an outpoint beyond its outputs) gives nothing *)
+Lemma get_utxo_example :
+  let w := mkTxOut 1%N 7%N in
+  let mk nw wu := mkIn nw wu [] None None None [] None None [] [] [] [] None [] [] [] None None [] [] in
+  get_utxo (mk None (Some w)) = Some w /\
+  get_utxo (mk (Some (mkNw 9%N true (Some (mkTxOut 2%N 7%N)))) (Some w)) = Some (mkTxOut 2%N 7%N) /\
+  get_utxo (mk (Some (mkNw 9%N false (Some w))) (Some w)) = None /\
+  get_utxo (mk (Some (mkNw 9%N true None)) (Some w)) = None /\
+  get_utxo (mk None None) = None.
+Proof. repeat split. Qed.
+
+(* ... and such an input is refused with MissingUtxo, untouched, even when try_input would succeed *)
+Lemma bad_utxo_example :
+  let a := mkIn (Some (mkNw 9%N false (Some (mkTxOut 1%N 7%N)))) (Some (mkTxOut 1%N 7%N))
+                [(1%N, 1%N)] None None None [] None None [] [] [] [] None [] [] [] None None [] [] in
+  let st := mkPsbt 1%N 1 [a] in
+  ex_try st 0 false = TOk 5%N 6%N /\
+  ex_step st (FinalizeInp 0 false) = (st, RInputErr 0 e_missing_utxo) /\
+  ex_step st (Finalize false) = (st, RFinErrs [(0, e_missing_utxo)]).
 Proof. vm_compute. repeat split. Qed.
